@@ -17,6 +17,15 @@ func init() {
 	reg(&Rule{ID: "R-BLOCKCLIP", Min: 8,
 		Doc: "at every emission site H + MatchLen ≤ len(p) for the block-clipped p: first-word count clamped by len(p)−i, 8-byte extension bounded by the remaining slice (invariant k + len(q) non-increasing), tail clamped by len(q)",
 		Run: ruleBlockClip})
+	reg(&Rule{ID: "R-DP-STEP", Min: 3,
+		Doc: "every record stored into the optimizing parser's DP table carries a step length 1 ≤ m ≤ its index (and the index lies inside the table): the backtrack loop i −= d[i].m, which R-LOOPS-PARSER accepts as terminating on exactly this premise, moves towards 0 and never below it",
+		Run: func(c *Ctx) {
+			for _, e := range c.emits() {
+				if isFieldFlow(e.MatchLen) {
+					c.dpBounds(e)
+				}
+			}
+		}})
 	reg(&Rule{ID: "R-HASHRANGE", Min: 12,
 		Doc: "every position stored into a hash table satisfies pos + inputLen ≤ len(Data): margin bytes beyond the data (stale after reuse) never enter a hash",
 		Run: ruleHashRange})
